@@ -1,12 +1,20 @@
 //! vh_ds — properties of the data-set layer (headers, value encoding, writer, reader).
 mod vrs;
 mod c03;
+mod gen;
+mod ds;
+mod c01;
+mod c02;
+mod c04;
 use vhc::*;
 
 fn main() {
     run_main(
         |prop, ctx| match prop {
             "C03" => Some(c03::cases(ctx)),
+            "C01" => Some(c01::cases(ctx)),
+            "C02" => Some(c02::cases(ctx)),
+            "C04" => Some(c04::cases(ctx)),
             _ => None,
         },
         |prop, out| match prop {
